@@ -30,6 +30,10 @@ type Universe struct {
 	Min  int
 	Max  int
 	idx  map[geom.Geom]int
+	// Queries are the SearchIntersect query boxes, QPoints the nearest-neighbour
+	// query points used with this alphabet.
+	Queries []*geom.Bounds
+	QPoints []geom.Point
 }
 
 func box(x0, y0, x1, y1 float64) *geom.Bounds {
@@ -58,12 +62,50 @@ func NewUniverse(n, min, max int, dups ...int) *Universe {
 		box(2, 1, 3, 2),        // o14
 		box(1, 1, 2, 2),        // o15 centre
 	}
+	u := &Universe{Objs: all[:n], Dup: make([]bool, n), Min: min, Max: max, idx: map[geom.Geom]int{}, Queries: queries, QPoints: qpoints}
+	for _, d := range dups {
+		u.Dup[d] = true
+	}
+	for i, o := range u.Objs {
+		u.idx[o] = i
+	}
+	return u
+}
+
+// NewSpreadUniverse is a second alphabet: n small objects (unit boxes, points,
+// degenerate boxes) spread over a 6x6 area with no object covering the others,
+// so that the envelopes of inner nodes shrink and grow with the history (which
+// the compact alphabet, dominated by its all-covering box, cannot show).
+func NewSpreadUniverse(n, min, max int, dups ...int) *Universe {
+	all := []geom.Geom{
+		box(0, 0, 1, 1), box(4, 4, 5, 5), box(4, 0, 5, 1), box(0, 4, 1, 5), box(2, 2, 3, 3),
+		geom.Point{X: 1.5, Y: 3.5}, box(2, 0, 3, 1), box(0, 2, 1, 3), geom.Point{X: 3.5, Y: 1.5},
+		box(4, 2, 5, 3), box(2, 4, 3, 5), box(5, 5, 5, 5), box(1.5, 1.5, 1.5, 1.5), box(3.5, 3.5, 3.5, 3.5),
+		box(0, 0, 0, 0), box(2, 2, 3, 3),
+	}
 	u := &Universe{Objs: all[:n], Dup: make([]bool, n), Min: min, Max: max, idx: map[geom.Geom]int{}}
 	for _, d := range dups {
 		u.Dup[d] = true
 	}
 	for i, o := range u.Objs {
 		u.idx[o] = i
+	}
+	for x0 := 0; x0 <= 5; x0++ {
+		for x1 := x0; x1 <= 5; x1++ {
+			for y0 := 0; y0 <= 5; y0++ {
+				for y1 := y0; y1 <= 5; y1++ {
+					if (x0+y0+x1+y1)%2 == 0 || x0 == x1 || y0 == y1 {
+						u.Queries = append(u.Queries, box(float64(x0), float64(y0), float64(x1), float64(y1)))
+					}
+				}
+			}
+		}
+	}
+	u.Queries = append(u.Queries, box(1.25, 1.25, 1.75, 1.75), box(-2, -2, -1, -1), box(-1, -1, 7, 7), box(3.5, -1, 3.5, 7))
+	for x := -1.0; x <= 6; x += 0.5 {
+		for y := -1.0; y <= 6; y += 0.5 {
+			u.QPoints = append(u.QPoints, geom.Point{X: x, Y: y})
+		}
 	}
 	return u
 }
@@ -355,7 +397,7 @@ func CheckC11(e *Explorer, s *bfs.State) {
 		}
 	}
 	got := make([]int, len(u.Objs))
-	for _, q := range queries {
+	for _, q := range u.Queries {
 		for i := range got {
 			got[i] = 0
 		}
@@ -419,7 +461,7 @@ func SetQuickPoints() {
 	}
 }
 
-// NumQueryPoints reports the size of the query-point set in use.
+// NumQueryPoints reports the size of the compact alphabet's query-point set.
 func NumQueryPoints() int { return len(qpoints) }
 
 func boxDist(p geom.Point, b *geom.Bounds) float64 {
@@ -444,7 +486,7 @@ func CheckC12(e *Explorer, s *bfs.State) {
 		e.R.AddNontrivial(1)
 	}
 	all := make([]float64, 0, size)
-	for _, p := range qpoints {
+	for _, p := range u.QPoints {
 		all = all[:0]
 		for i, o := range u.Objs {
 			for c := 0; c < int(st.Counts[i]); c++ {
